@@ -113,6 +113,8 @@ fn search(contract: &str, seed: u64, budget: u64) -> i32 {
         return oneway_w::search(false, budget > 60);
     }
     if c == "run_local" || c == "run_remote" || c == "print_plan" { let a = oneway_w::dry_search(false); let b = oneway_w::plan_search(false); return a.max(b); }
+    if c.ends_with("split_target") { return hub_w::search(false); }
+    if c.ends_with("FileLocation::parse") { return oneway_w::noop_search(false); }
     if c.ends_with("sync_files") { return cli_w::search("cli_sync_files", seed, false); }
     if c.starts_with("run_") || c.starts_with("cli") {
         return cli_w::search(c, seed, false);
